@@ -195,9 +195,12 @@ def run_instances(module, instances, total_budget_s, stop_on_violation=True, log
                     st.dumped.extend(out.get("dumped", [])[:room])
                 st.unreproduced.extend(out.get("unreproduced", [])[: max(0, 5 - len(st.unreproduced))])
                 if out.get("error"):
+                    # an encoding/harness error makes THIS instance inconclusive (exit 2 unless another instance reproduces a
+                    # violation on the real code); the other instances still run
                     st.errors.append(out["error"])
                     st.status = "error"
-                    stop = True
+                    st.dropped += len([p_ for p_ in pending if p_[0] == name])
+                    pending = [p_ for p_ in pending if p_[0] != name]
                 elif out["status"] == "violation":
                     st.status = "violation"
                     st.violation = out["violation"]
@@ -208,7 +211,7 @@ def run_instances(module, instances, total_budget_s, stop_on_violation=True, log
                     else:
                         st.dropped += len(out.get("leftover", []))
                 elif out["status"] == "budget":
-                    left = out["leftover"]
+                    left = out["leftover"] if st.status != "error" else []
                     if left:
                         for ch in _chunks(left, 48):
                             pending.append((name, ch, gen + 1))
@@ -351,10 +354,8 @@ def main_check(prop, tier, seed):
     errs = [s for s in states.values() if s.status == "error"]
     exit_code = 0
     replay_path = None
-    if errs:
-        exit_code = 2
-        for s in errs:
-            print(f"HARNESS-ERROR property={prop} instance={s.inst.name}\n{s.errors[0]}", file=sys.stderr, flush=True)
+    for s in errs:
+        print(f"HARNESS-ERROR property={prop} instance={s.inst.name}\n{s.errors[0]}", file=sys.stderr, flush=True)
     vacuity_failed = []
     for s in states.values():
         if s.inst.name.startswith("reach:"):
@@ -375,6 +376,8 @@ def main_check(prop, tier, seed):
         print(f"VIOLATION property={prop} replay={replay_path}", flush=True)
         print(f"  instance={s.inst.name} label={s.violation['label']}", flush=True)
         exit_code = 1
+    if errs and exit_code == 0:
+        exit_code = 2   # no reproduced violation, but some instance could not be encoded: inconclusive, never reported as a pass
     if vacuity_failed and exit_code == 0:
         print(f"HARNESS-ERROR property={prop}: reachability twin(s) not violated: {vacuity_failed}", file=sys.stderr)
         exit_code = 2
